@@ -837,6 +837,11 @@ func c12Retry(c *Ctx, a *clientAnchors) {
 				}
 			}
 			r.Check(back, "C12-K1", key("a deadline leads to the next try"), c.P.ipos(call), "call block reachable from the deadline edge", "after a deadline no further try is made")
+			// … and nothing else does: with the deadline edge removed the try cannot be reached again from its own result
+			// (a write error, the context's error, ErrNoResponse after Close, any transport "timeout" end the call at once)
+			again := reachFromSuccs(call.Block(), map[Edge]bool{dlE: true}, nil)[call.Block()]
+			r.Check(!again, "C12-K1", key("only the try's own deadline leads to another try"), c.P.ipos(call), "no cycle through the try avoids the err==errDeadlineExceeded edge",
+				"another try is made after a result that is not the internal deadline error (an error classified by Timeout(), a wrapped error, …): a cancelled or expired context, a closed client or a failed write no longer end the call at once")
 			// … and every path from the deadline edge to the next try doubles: the call block is not reachable
 			// from the deadline edge once the doubling block is removed
 			if back && dbl.Block() != dlE.To {
